@@ -493,7 +493,7 @@ package profile
 //@ spec func samplesok(p *Profile) bool = p != nil && forall i int :: 0 <= i && i < len(p.Sample) ==> p.Sample[i] != nil && len(p.Sample[i].Value) == len(p.SampleType)
 // ScaleN: error exactly on a length mismatch; ratios all 1 change nothing; a sample is kept exactly
 // when one of its resulting values is non-zero (values are scaled, never dropped), no index out of range.
-//@ func Profile.ScaleN arith bv
+//@ func Profile.ScaleN arith bv floatabs=yes
 //@   requires samplesok(p)
 //@   ensures err: result != nil <==> len(p.SampleType) != len(ratios)
 //@   ensures mismatch_noop: result != nil ==> len(p.Sample) == old(len(p.Sample))
@@ -509,3 +509,25 @@ package profile
 //@   loop 3
 //@     invariant 0 <= $i && $i <= len(s.Value) && len(s.Value) == len(ratios)
 //@     invariant keep: keepSample <==> exists j int :: 0 <= j && j < $i && s.Value[j] != 0
+
+//@ func Profile.Scale arith bv floatabs=yes
+//@   requires samplesok(p)
+//@   ensures identity: ratio == 1.0 ==> len(p.Sample) == old(len(p.Sample))
+//@   ensures shrink: len(p.Sample) <= old(len(p.Sample))
+//@   loop 1
+//@     invariant 0 <= $i && $i <= len(p.SampleType) && len(ratios) == len(p.SampleType) && samplesok(p)
+
+// Normalize: no index out of range, no division by zero (a zero source total gives ratio 0).
+//@ func Profile.Normalize arith bv floatabs=yes
+//@   requires samplesok(p) && samplesok(pb) && typesok(p) && typesok(pb)
+//@   ensures incompatible: result != nil <==> !sametypes(p, pb)
+//@   loop 1
+//@     invariant 0 <= $i && $i <= len(pb.Sample) && len(baseVals) == len(p.SampleType) && len(pb.SampleType) == len(p.SampleType) && samplesok(pb) && samplesok(p)
+//@   loop 2
+//@     invariant 0 <= $i && $i <= len(s.Value) && len(baseVals) == len(p.SampleType) && len(s.Value) == len(p.SampleType)
+//@   loop 3
+//@     invariant 0 <= $i && $i <= len(p.Sample) && len(srcVals) == len(p.SampleType) && len(baseVals) == len(p.SampleType) && samplesok(p)
+//@   loop 4
+//@     invariant 0 <= $i && $i <= len(s.Value) && len(srcVals) == len(p.SampleType) && len(s.Value) == len(p.SampleType)
+//@   loop 5
+//@     invariant 0 <= $i && $i <= len(baseVals) && len(normScale) == len(baseVals) && len(srcVals) == len(baseVals) && len(baseVals) == len(p.SampleType) && samplesok(p)
